@@ -16,7 +16,7 @@
   `z` below is the tree reached by an arbitrary add sequence `rs` (failed adds included) from
   the empty zone; `s` the specification's flat zone for the same sequence.
 -/
-import QV.Proofs.ZoneIter
+import QV.Proofs.ZoneAbs
 
 namespace QV.C20
 open QV QV.NameL QV.Zone QV.Spec.Zone
@@ -40,6 +40,8 @@ def C20_full : Prop :=
     (∀ n, n ∈ (iterByNode z).map (·.1) ↔ IsNode s n) ∧
     -- exactly the de-duplicated RRsets added
     (iterByRrset z).Perm (specIterByRrset s) ∧
+    -- the records stored in the tree (abstraction `abs`) are, up to order, the flat zone's
+    (abs z).Perm s.recs ∧
     -- apex SOA / NS agree with the specification and with iteration
     soa z = specSoa s ∧ ns z = specNs s ∧
     (∀ rr, soa z = some rr ↔ ((apex, rr) ∈ iterByRrset z ∧ rr.rtype = Gen.T_SOA)) ∧
@@ -60,7 +62,7 @@ theorem reach (eqv : Eqv) (apex : Name) (cls : Nat) (glue : GluePolicy) (rs : Li
 theorem C20_holds : C20_full := by
   intro eqv apex cls glue rs r z s
   obtain ⟨h, hw, hza, hsa, hsc⟩ := reach eqv apex cls glue rs
-  refine ⟨?_, ?_, ?_, ?_, ?_, ?_, ?_, ?_, ?_, ?_, ?_⟩
+  refine ⟨?_, ?_, ?_, ?_, ?_, ?_, ?_, ?_, ?_, ?_, ?_, ?_⟩
   · rw [add_ok_iff h eqv r, specAdd_ok_iff, hsa, hsc]
   · exact fun e => add_err_iff h eqv r e
   · exact fun z' e hm => addM_err_unchanged eqv _ r z' e hm
@@ -72,6 +74,7 @@ theorem C20_holds : C20_full := by
     · rintro ⟨x, hx, rfl⟩; exact ((mem_iterByNode h hw x).mp hx).1
     · intro hn; exact ⟨(n, rrsetsAt _ n), (mem_iterByNode h hw _).mpr ⟨hn, rfl⟩, rfl⟩
   · exact iterByRrset_perm h hw
+  · exact abs_perm h hw
   · exact soa_eq_spec h
   · exact ns_eq_spec h
   · intro rr; have := apexRrset_iff h hw Gen.T_SOA rr; rw [hza] at this; exact this
@@ -95,6 +98,15 @@ theorem C20_rejected_add_unchanged (eqv : Eqv) (z z' : Zone) (r : Rec) (e : AddE
     RDATA is already in its RRset — the abstraction commutes with `add`. -/
 theorem C20_add_refines (eqv : Eqv) (z : Zone) (s : SZone) (h : Rel z s) (r : Rec) :
     Rel (addM eqv z r).1 (specAddM eqv s r) := (h.add eqv r).1
+
+/-- The abstraction commutes with `add`, stated on `abs`: after any add sequence followed by one
+    more `add`, the records stored in the tree are a permutation of `specAddM` applied to the flat
+    zone (the record appended, unless it is rejected or an `eqv`-duplicate). -/
+theorem C20_abs_commutes (eqv : Eqv) (apex : Name) (cls : Nat) (glue : GluePolicy) (rs : List Rec) (r : Rec) :
+    (abs (addM eqv (build eqv (Zone.new apex cls glue) rs) r).1).Perm
+      (specAddM eqv (specBuild eqv ⟨apex, cls, glue, []⟩ rs) r).recs := by
+  obtain ⟨h, hw, _⟩ := reach eqv apex cls glue rs
+  exact abs_perm (h.add eqv r).1 (addM_wf eqv _ r hw)
 
 /-- Every node's RRset list is exactly the list of the RRsets the flat zone has at that name,
     ascending by type; a name has a node iff it is the apex or lies between the apex and an owner. -/
